@@ -168,6 +168,16 @@ def f_origin_alias(s, r):
     exp, got = r.choice(ORIGIN_ALIASES)
     s.exp_origin = exp if r.random() < 0.6 else [exp, "https://other.example"]
     s.origin = got
+# an expected origin is a STRING, not a pattern: characters that some pattern language (glob, regex, SQL LIKE) reads specially stand for themselves
+ORIGIN_PATTERNS = [("http://[::1]:5000", "http://1:5000"), ("http://[::1]:5000", "http://::5000"), ("https://[2001:db8::1]", "https://2"), ("https://*.example.com", "https://login.example.com"),
+                   ("https://example.com?", "https://example.comX"), ("https://example.com", "https://exampleXcom"), ("https://(a|b).example", "https://a.example"),
+                   ("https://a.example|https://b.example", "https://a.example"), ("https://example.com$", "https://example.com"), ("^https://example.com", "https://example.com"),
+                   ("https://%.example.com", "https://login.example.com"), ("https://_.example", "https://a.example"), ("https://example.com*", "https://example.com.evil.test"),
+                   ("https://example.[a-z]*", "https://example.com"), ("*", "https://evil.example"), ("https://{a,b}.example", "https://a.example")]
+def f_origin_pattern(s, r):
+    exp, got = r.choice(ORIGIN_PATTERNS)
+    s.exp_origin = exp if r.random() < 0.6 else [exp, "https://other.example"]
+    s.origin = got
 def f_origin_substring(s, r):
     # client origin is a proper substring / superstring of the expected one
     s.exp_origin = "https://example.com:8443"
@@ -253,7 +263,7 @@ FAULTS = {
     "id-not-b64-rawid:padded-1": id_fault("padded-1"), "id-not-b64-rawid:padded-2": id_fault("padded-2"), "id-not-b64-rawid:last-char-spare-bits": id_fault("last-char-spare-bits"),
     "id-not-b64-rawid:newline-appended": id_fault("newline-appended"), "id-not-b64-rawid:dot-inserted": id_fault("dot-inserted"), "id-not-b64-rawid:standard-alphabet": id_fault("standard-alphabet"),
     "id-not-b64-rawid:char-appended": id_fault("char-appended"), "id-not-b64-rawid:truncated": id_fault("truncated"), "id-not-b64-rawid:empty": id_fault("empty"),
-    "credential-type": f_cred_type, "challenge-base64url-alias": f_challenge_b64_alias, "origin-alias-spelling": f_origin_alias, "declared-algorithm-of-another-family": f_declared_alg_foreign,
+    "credential-type": f_cred_type, "challenge-base64url-alias": f_challenge_b64_alias, "origin-alias-spelling": f_origin_alias, "origin-expected-read-as-pattern": f_origin_pattern, "declared-algorithm-of-another-family": f_declared_alg_foreign,
 }
 # faults that can only be expressed in some input forms
 RECORD_ONLY = {"credential-type"}
